@@ -60,7 +60,7 @@ namespace fastscapelib
 
         for (std::size_t i = 0; i < m_size; ++i)
             if ((*p_jobs)[i] != nullptr)
-                m_has_job[i].store(1, std::memory_order_relaxed);
+                m_has_job[i].store(1, std::memory_order_release);
     }
 
     /////////////////////////////////////////////////////////////////////////////////////////
@@ -109,7 +109,7 @@ namespace fastscapelib
     {
         for (std::size_t i = 0; i < m_size; ++i)
         {
-            if (m_has_job[i].load(std::memory_order_relaxed))
+            if (m_has_job[i].load(std::memory_order_acquire))
                 return false;
         }
         return true;
@@ -174,10 +174,10 @@ namespace fastscapelib
                     {
                         while (!m_stopped.load(std::memory_order_relaxed))
                         {
-                            if (m_has_job[i].load(std::memory_order_relaxed))
+                            if (m_has_job[i].load(std::memory_order_acquire))
                             {
                                 (*p_jobs)[i]();
-                                m_has_job[i].store(0, std::memory_order_relaxed);
+                                m_has_job[i].store(0, std::memory_order_release);
                             }
                         }
                     });
